@@ -22,7 +22,7 @@ Inductive opname :=
 (* TZif *)
 | Op_tz_lookup | Op_tz_expect | Op_tz_synth | Op_tz_local
 (* text *)
-| Op_fmt | Op_parse | Op_roundtrip | Op_rfc_fmt | Op_rfc_parse | Op_display | Op_fromstr | Op_serde_ser | Op_serde_de | Op_serde_rt.
+| Op_fmt | Op_parse | Op_roundtrip | Op_rfc_fmt | Op_rfc_parse | Op_display | Op_fromstr | Op_serde_ser | Op_serde_de | Op_serde_rt | Op_std_parse.
 
 Inductive obs :=
 | OOk (zs : list Z) (ss : list (list Z))
